@@ -86,6 +86,22 @@ Proof.
   destruct (String.eqb_spec k k') as [->|Hne]; [intros _; left; reflexivity|intros H; right; apply IH; exact H].
 Qed.
 
+(* whatever create_window returns was produced by the dispatcher run_gen (no assumption on the tables) *)
+Lemma create_window_ok_run_gen {F : Type} {OF : Ops F} {TF : TOps F}
+      (names : list (string * string)) (routes : list (string * list string))
+      (sigs : list (string * list (string * lit_t))) (N : nat) (name : option string) (kw : list (string * pval)) (w : list F) :
+  create_window names routes sigs N name kw = WOk w -> exists g env, run_gen g env N = WOk w.
+Proof.
+  unfold create_window.
+  destruct (lookup (lower match name with Some s => s | None => "rectangle" end) names) as [g|]; [|discriminate].
+  assert (C : forall kw', call_gen sigs g kw' N = WOk w -> exists g env, run_gen g env N = WOk w).
+  { intros kw'. unfold call_gen. destruct (lookup g sigs) as [sig|]; [|discriminate].
+    destruct (bind sig kw') as [env|]; [|discriminate]. intros H. exists g, env. exact H. }
+  destruct (lookup (lower match name with Some s => s | None => "rectangle" end) routes) as [allowed|].
+  - destruct (forallb (fun a => mem (fst a) allowed) kw); [apply C|discriminate].
+  - destruct kw; [apply C|discriminate].
+Qed.
+
 Section Factory.
 Context {F : Type} {OF : Ops F} {TF : TOps F}.
 Variable names : list (string * string).
